@@ -11,7 +11,7 @@ from sim.loop import Sim
 from sim.oracle import Violation
 from sim.tape import Tape, mix
 
-from .common import bump, digest_of, pair_hash
+from .common import await_site, bump, digest_of, pair_hash
 from .microworld import GraphSpec, World2, initial_data
 
 
@@ -88,14 +88,17 @@ def run_unit(seed=None, unit=None, tier="quick", stats=None, prop="C06"):
         world = World2(sim, spec, early, capacity)
         ctx = CancelCtx(world)
         out = {"waiting": None, "payloads": 0, "closed": False, "ended": False, "error": None}
+        ann_labels = set()
 
         async def main(world=world, ctx=ctx, out=out, close_after=close_after, sim=sim,
-                       spec=spec):
+                       spec=spec, ann_labels=ann_labels):
             work = world.build(spec.initial)
             ctx.initial_computations = list(world.computations)
             ctx.initial_queues = list(world.queues)
             res = IncrementalPublisher().build_response(initial_data(spec), None, work, ctx)
             it = res.subsequent_results
+            for pe_ in res.initial_result.formatted.get("pending") or ():
+                ann_labels.add(pe_.get("label"))
             k = 0
             while True:
                 if k == close_after:
@@ -111,7 +114,9 @@ def run_unit(seed=None, unit=None, tier="quick", stats=None, prop="C06"):
                 await sim.external(f"gate:pull#{k}", "gate", ("value", None)).fut
                 out["waiting"] = "anext"
                 try:
-                    await it.__anext__()
+                    pl_ = await it.__anext__()
+                    for pe_ in pl_.formatted.get("pending") or ():
+                        ann_labels.add(pe_.get("label"))
                 except StopAsyncIteration:
                     out["waiting"] = None
                     out["ended"] = True
@@ -151,7 +156,15 @@ def run_unit(seed=None, unit=None, tier="quick", stats=None, prop="C06"):
             left = [t for t in sim.unfinished_tasks() if t.get_name() != "main"]
             if left:
                 qn = getattr(left[0].get_coro(), "__qualname__", "?")
-                vs.append(Violation(prop, "orphan_task", dict(fp, coroutine=qn),
+                # was the stream whose producer leaked ever known to the scheduler?
+                announced = "?"
+                for ss in spec.all_streams:
+                    q = ss.queue
+                    if q is not None and getattr(q, "_producer_task", None) is left[0]:
+                        announced = ss.label in ann_labels
+                vs.append(Violation(prop, "orphan_task", dict(fp, coroutine=qn,
+                                                              site=await_site(left[0]),
+                                                              stream_announced=announced),
                                     {"tasks": [getattr(t.get_coro(), "__qualname__", "?")
                                                for t in left][:6]}))
             # with early execution everything primed is tracked; without it only started work runs
